@@ -935,6 +935,8 @@ def run(ctx: Ctx) -> None:
     check_affine_ops(ctx, view)
     rules.rule_forwarding(ctx, "2.8-forwarding", ds, ["normalize_vect", "unnormalize_vect", "transform_vect", "untransform_vect", "round_vect", "normalize_grad", "unnormalize_grad"], "a subclass must keep the affine map of the deterministic case")
     check_conversions(ctx, view)
+    rules.rule_passthrough_names(ctx, "2.8-passthrough", ds, "the options of the (un)normalisation keep their meaning from one method to the next")
+    ctx.floor("2.8-passthrough", 10)
     ctx.floor("2.1-store", 6)
     ctx.floor("2.1-delete", 5)
     ctx.floor("2.2-invalidate", 7)
